@@ -47,7 +47,8 @@ partial def loop (h : IO.FS.Stream) (st : Stats) : IO Stats := do
     if st.printed < maxPrint then IO.println s!"BAD {st.lines} {line}"
     loop h { st with bad := st.bad + 1, printed := st.printed + 1 }
   | some r =>
-    let st := { st with tags := st.tags.insert r.tag (st.tags.getD r.tag 0 + 1) }
+    let tag := r.tag.replace " " "_"
+    let st := { st with tags := st.tags.insert tag (st.tags.getD tag 0 + 1) }
     let isDiff := r.out != impl
     let st ← if isDiff then do
         if st.printed < maxPrint then
